@@ -298,6 +298,8 @@ def gen_case(rng, n):
         expr = expr + other
     if rng.random() < 0.06:
         expr = expr * Symbol(rng.choice(["x", "c0"])) ** rng.choice([1, 2])
+    from sympy import expand
+    expr = expand(expr)
     if expr == 0:
         return None
     # target string
@@ -555,10 +557,30 @@ def run(ctx):
                 coq_cases.append(cc if cc is not None else '"NOINPUT"')
 
     vals, errs = ctx.coq_eval("tie", coq_cases, header=U.COQ_HEADER, shard=40)
+    # hypotheses of the theorems, evaluated in Coq on every observed scheme
+    chk_cases, chk_owner = [], []
+    for n, (case, be, opt, obs) in enumerate(records):
+        if obs.outcome != "ok":
+            continue
+        for cc in U.coq_check_cases(obs, be, case["targets"]):
+            chk_cases.append(cc)
+            chk_owner.append(n)
+    cvals, _ = ctx.coq_eval("hyp", chk_cases, header=U.COQ_HEADER, shard=80)
+    hyp = {}
+    for n, v in zip(chk_owner, cvals):
+        d = U.parse_checks(v)
+        if not d:
+            ctx.note(f"unparsed scheme_checks value: {v}")
+            d = {"c_unparsed": False}
+        cur = hyp.setdefault(n, {})
+        for k, b in d.items():
+            cur[k] = cur.get(k, True) and b
+    hyp_stats = {}
 
     stats = {"ok": 0, "refuse": 0, "crash": 0, "input-error": 0,
              "executed": 0, "exec-skipped-same-name-different-spin": 0}
-    for (case, be, opt, obs), cq, val in zip(records, coq_cases, vals):
+    for recno, ((case, be, opt, obs), cq, val) in enumerate(
+            zip(records, coq_cases, vals)):
         variant = (be, opt)
         vname = f"{case['label']}:{be}:{'opt' if opt else 'unopt'}"
         kindlab = case["label"].split(":")[0].rstrip("0123456789")
@@ -623,6 +645,19 @@ def run(ctx):
         stats["executed"] += 1
         okv = ctx.obligation(f"emitted program value == expression value "
                              f"{vname}", bad is None, str(bad))
+        # which hypotheses of C17_codegen_semantics hold for this call
+        h = dict(hyp.get(recno, {}))
+        if be == "libtensor":
+            h.pop("c_letters", None)       # only needed for numpy subscripts
+        failed = sorted(k for k, b in h.items() if not b)
+        tag = "all-hypotheses-hold" if not failed else "fails:" + ",".join(failed)
+        hyp_stats[tag] = hyp_stats.get(tag, 0) + 1
+        if not failed and h:
+            # theorem applies: the value must agree (consistency of the formal
+            # hypotheses with the independent execution)
+            if not ctx.obligation("hypotheses of C17_codegen_semantics hold => "
+                                  f"values agree {vname}", bad is None):
+                pass
         if not okv:
             key = classify(case, variant, obs, bad["kind"],
                            bad.get("error"))
@@ -632,6 +667,8 @@ def run(ctx):
                       "than the expression")
             ctx.violation(key, what, {"case": describe(case, be, opt, obs),
                                       "difference": bad}, True)
+    ctx.extra["c17_hypotheses"] = hyp_stats
+    ctx.note(f"theorem hypotheses over executed calls: {hyp_stats}")
     ctx.extra["c17_stats"] = stats
     ctx.note(f"outcomes: {stats}")
 
